@@ -28,6 +28,7 @@ CAT = {0: ST(("a", "string", False), ("tok", O("string"), False), ("n", O(U(32))
        1: ST(("s", "str", False), ("b", "bool", False)),
        2: ST(("id", U(64), False), ("d", U(8), True), ("neg", O(I(16)), False)),
        3: ST(("x", "string", False), ("y", "string", False), ("z", "string", False)),
+       5: ST(("c", "char", False), ("oc", O("char"), False), ("s", "string", False)),
        4: ST(("session-id", "string", False), ("__Host-tok", O("string"), False), ("a.b!#$*+^_`|~", O(U(32)), False))}          # names over the token alphabet that are not identifiers (serde rename)
 DEFAULTS = {2: {"d": {"i": "0"}}}
 
@@ -64,7 +65,7 @@ def sval(s): return {"s": s.encode().hex()}
 
 
 def jar_case(rng):
-    tid = rng.randrange(5)
+    tid = rng.randrange(6)
     fields = CAT[tid]['struct']
     want, parts, forms = [], [], []
     order = list(fields)
@@ -74,6 +75,8 @@ def jar_case(rng):
         if d and rng.random() < 0.5: continue
         if t in ('string',) or (isinstance(t, dict) and t.get('option') == 'string'):
             v = value_text(rng); w, f = enc_value(rng, v)
+        elif t == 'char' or (isinstance(t, dict) and t.get('option') == 'char'):
+            v = rng.choice(['a', 'Z', '7', 'é', '★', '🐺', '日', ' ', ';', '"', '%', '=']); w, f = enc_value(rng, v)
         elif t == 'str':
             v = ''.join(rng.choice('abcXYZ019-_.') for _ in range(rng.randrange(1, 6))); w, f = v, 'plain'
         elif t == 'bool': v = rng.choice(['true', 'false']); w, f = v, 'plain'
@@ -211,6 +214,7 @@ def jar_want(case):
             base = t['option'] if isinstance(t, dict) and 'option' in t else t
             if isinstance(t, dict) and 'option' in t and raw == '': vals.append([n, 'none']); continue
             if base in ('string', 'str'): v = sval(txt)
+            elif base == 'char': v = {'c': ord(txt)} if len(txt) == 1 else None
             elif base == 'bool': v = {'b': txt == 'true'}
             else: v = {'i': str(int(txt))}
             vals.append([n, {'some': v} if isinstance(t, dict) and 'option' in t else v])
